@@ -39,6 +39,8 @@ func main() {
 		memberMain(os.Args[2:])
 	case "balance":
 		balanceMain(os.Args[2:])
+	case "webhook-stress":
+		webhookStressMain(os.Args[2:])
 	case "webhook":
 		webhookMain(os.Args[2:])
 	case "member-stress":
